@@ -252,4 +252,60 @@ theorem refresh_error_unchanged (msk : Msk) (usk : Usk) (keep : Bool) (n : Rng) 
       | ok x => simp at h
   · simp [hv]
 
+/-- rekey prepends a fresh secret to the chain of every rekeyed right -/
+theorem rekeyLoop_fresh' (secrets : RevMap) (rights : List Right) (n : Rng) (r : Right) (hr : r ∈ rights)
+    (hall : ∀ r ∈ rights, (secrets.getLatest r).isSome) :
+    ∃ act sk, (rekeyLoop secrets rights n).2.1.getLatest r = some (act, sk) ∧ n ≤ sk.tok := by
+  induction rights generalizing secrets n with
+  | nil => cases hr
+  | cons x xs ih =>
+    unfold rekeyLoop
+    have hx := hall x List.mem_cons_self
+    have hc : secrets.containsKey x = true := by
+      unfold RevMap.containsKey; unfold RevMap.getLatest at hx
+      cases hl : secrets.lookup x with
+      | none => simp [hl] at hx
+      | some _ => rfl
+    simp only [hc, if_true]
+    cases hl : secrets.getLatest x with
+    | none => simp [hl] at hx
+    | some v =>
+      obtain ⟨act, sk⟩ := v
+      simp only
+      have hall' : ∀ r ∈ xs, ((secrets.insert x (act, ⟨n, sk.hyb⟩)).getLatest r).isSome := by
+        intro r' hr'
+        rw [RevMap.getLatest_insert]
+        by_cases hk : r' == x
+        · simp [hk]
+        · simp only [hk]; exact hall r' (List.mem_cons_of_mem _ hr')
+      by_cases hin : r ∈ xs
+      · obtain ⟨a, s, h1, h2⟩ := ih (secrets.insert x (act, ⟨n, sk.hyb⟩)) (n + 1) hin hall'
+        exact ⟨a, s, h1, Nat.le_of_succ_le h2⟩
+      · have hrx : r = x := by
+          rcases List.mem_cons.1 hr with h | h
+          · exact h
+          · exact absurd h hin
+        subst hrx
+        -- the remaining rights do not touch `r`: its newest secret is the one just inserted
+        have hstable : ∀ (s : RevMap) (m : Rng), r ∉ xs → (rekeyLoop s xs m).2.1.getLatest r = s.getLatest r := by
+          intro s m hnin
+          clear ih hall' hall hr hin
+          induction xs generalizing s m with
+          | nil => rfl
+          | cons y ys ihy =>
+            simp only [List.mem_cons, not_or] at hnin
+            unfold rekeyLoop
+            split
+            · cases hy : s.getLatest y with
+              | none => rfl
+              | some w =>
+                obtain ⟨a, k⟩ := w
+                simp only
+                rw [ihy _ _ hnin.2, RevMap.getLatest_insert]
+                have : (r == y) = false := by simpa using hnin.1
+                simp [this]
+            · rfl
+        rw [hstable _ _ hin, RevMap.getLatest_insert]
+        exact ⟨act, ⟨n, sk.hyb⟩, by simp, Nat.le_refl _⟩
+
 end CC
